@@ -97,7 +97,7 @@ def cases(sh, tier):
     p = sh["p"]
     inc = R.monotonic_dir(sh["lab"]) in (1, None)
     for name, new in _newvecs(sh["lab"], sh["kind"]).items():
-        for lr in (None, [-1.0, -2.0]):
+        for lr in (None, [-1.0, -2.0], "edge"):
             for axarg in (NAMES[p], p):
                 yield {"a": s, "p": p, "axis": axarg, "new": new, "nm": name, "lr": lr, "issorted": None, "form": "list"}
             if inc:
@@ -108,6 +108,8 @@ def cases(sh, tier):
                 yield {"a": s, "p": p, "axis": NAMES[p], "new": new, "nm": name, "lr": lr, "issorted": None, "form": "nd", "again": "new_inplace"}
                 yield {"a": s, "p": p, "axis": p, "new": new, "nm": name, "lr": lr, "issorted": None, "form": "nd", "again": "relabel_inplace"}
         yield {"a": s, "p": p, "axis": NAMES[p], "new": new, "nm": name, "lr": None, "issorted": None, "form": "like"}
+        # the new coordinates given as an Axis object that NAMES the dimension, without axis= ("required unless values is an Axis")
+        yield {"a": s, "p": p, "axis": None, "new": new, "nm": name, "lr": None, "issorted": None, "form": "axisobj"}
         if s["vk"] == "f" and name in ("identity", "nodes_rev", "dup", "sorted_all", "unsorted"):
             # an infinite value in the data: exact at its own node, fills outside, numpy.interp's answer between nodes
             yield {"a": s, "p": p, "axis": NAMES[p], "new": new, "nm": name, "lr": None, "issorted": None, "form": "list", "inf": 2}
@@ -183,7 +185,10 @@ def check(case):
         ra.vals.reshape(-1)[k] = np.inf if case["inf"] else -np.inf
     before = common.snap(a)
     p, new = case["p"], case["new"]
-    left, right = (float("nan"), float("nan")) if case["lr"] is None else case["lr"]
+    if case["lr"] == "edge":      # numpy.interp's own left=None / right=None: the first / last value of the fibre
+        left, right = None, None
+    else:
+        left, right = (float("nan"), float("nan")) if case["lr"] is None else case["lr"]
     kw = {}
     if case["lr"] is not None:
         kw.update(left=left, right=right)
@@ -194,6 +199,9 @@ def check(case):
         tmpl = DimArray(np.zeros((len(new), 2)), axes=[Axis(np.array(new, dtype=float), ra.dims[p]), Axis(np.array([1, 2]), "other")])
         got = call(a.interp_like, tmpl)
         what = "interp_like(template with {}={})".format(ra.dims[p], new)
+    elif case["form"] == "axisobj":
+        got = call(a.interp_axis, Axis(np.array(new, dtype=float), ra.dims[p]), **kw)
+        what = "interp_axis(Axis({}, {!r}))".format(new, ra.dims[p])
     else:
         arg = list(new) if case["form"] == "list" else np.array(new, dtype=float)
         got = call(a.interp_axis, arg, axis=case["axis"], **kw)
